@@ -531,12 +531,6 @@ theorem iterRel_of_live {o : Orc} {h : Heap} {s l : Nat} (hl : RelLive h s l) (h
   unfold iterRel
   rw [withRel_of_live hl, invalidateAbs_of_stale hs]
 
-/-- the message `Bar.__init__` puts in front (bar.py:49-52), as `Message.__init__` builds it -/
-theorem tsMsg_eq (g : GOrc) (num den : Int) :
-    ({ ty := .timeSignature, ch := if (0 : Int) = pyNone then 0 else 0, time := pyNone, note := pyNone, vel := pyNone,
-       ctl := pyNone, prog := pyNone, num := num, den := den, key := pyNone } : Msg) = (orcOf g).tsMsg num den := by
-  simp [orcOf]
-
 @[simp] theorem getRel_orcOf (g : GOrc) (h : Heap) (s : Nat) : getRel (orcOf g) h s = getRel g.orc h s := rfl
 @[simp] theorem normalise_orcOf (g : GOrc) (tag : Nat) (h : Heap) (s : Nat) : normalise (orcOf g) tag h s = normalise g.orc tag h s := rfl
 @[simp] theorem iterRel_orcOf (g : GOrc) (h : Heap) (s : Nat) : iterRel (orcOf g) h s = iterRel g.orc h s := rfl
@@ -579,15 +573,15 @@ local macro "bar_tail" h3:term "," live3:term "," st3:term "," bar3:term "," hba
   simp only [bindRes_ok, run_bind, run_get, it3, $bar3:term, $hbar:term]
   rw [sequenceMessagesRel_run g tag s l0 $h3 (by rw [g3])]
   simp only [bindRes_ok, run_bind, run_get, it3, g3, $bar3:term, $hbar:term, sequenceOverwriteRelativeMessages_run, overwriteRel_bar,
-    newMessage, run_alloc, messageInit_run, setMsg_newMsg, newMsg_snd, newMsg_bar, sequenceAddRelativeMessage_zero,
+    run_alloc, newMsg_snd, newMsg_bar, sequenceAddRelativeMessage_zero,
     getRel_of_live (relLive_newMsg (relLive_overwriteRel _ _ _) _), addRel_bar, run_modify, getRel_orcOf, iterRel_orcOf,
-    barFinish, kept_eq, invalidateAbs_of_stale $st3, addRel_orcOf, tsMsg_eq g]
+    barFinish, kept_eq, invalidateAbs_of_stale $st3, addRel_orcOf]
   rfl))
 
 /-- `Bar(sequence, numerator, denominator, key)` on a sequence whose relative view can be read: the blank cell, then the
     translated `Bar.__init__`, is `HeapOps.barInit` under the oracle `orcOf g` -/
 theorem barNew_run (g : GOrc) (tag s : Nat) (num den key : Int) (h : Heap) (hl : SeqLive h s) :
-    Gen.HeapFns.barInit g tag h.nBar s num den key 0 (h.newBar {}).1
+    Gen.HeapFns.barInit g tag h.nBar s num den key (h.newBar {}).1
       = (.ok (), (HeapOps.barInit (orcOf g) tag h s num den key).1) := by
   -- the model side, step by step
   have hlb : SeqLive (h.newBar { seq := s, num := num, den := den, key := key }).1 s := hl
